@@ -3,7 +3,7 @@
   It is C05's covered subset (`Covered`, `cmd_span`: notes, `r ^ l o < > Q q C s &`) widened by
   the event commands of `mml_control` / `mml_envelope` that are one character and an optional /
   mandatory / absent number: `[ L`, `] ( )`, `* @ v p K E M P G t T`, the transposes `_n __n kn`, `%n`,
-  and `D` (drum mode).
+  `D` (drum mode), and by the reverse rest `R` and the grace note `~` of `mml_basic`.
   For these, `mml_basic` declines (puts the character back), and `mml_control` or `mml_envelope`
   consumes exactly the spelling.  Interface: `LCovered`, `lcmdTrack`, `LCmdNums`, `LCmdTail`,
   `lcmdSkip`, `lcmd_step` (one iteration of `parse_mml_track`).
@@ -406,6 +406,81 @@ theorem transposeRel_span (s : MmlState) (hs : Sane s) (n : Num) (tail : List Na
   have : 1 + (1 + n.bytes.length) = 2 + n.bytes.length := by omega
   rw [this]
 
+/-! ### reverse rest and grace note (`mml_basic`) -/
+
+theorem mmlReverseRest_ok (s : MmlState) (dur : Nat) (hdone : ((getTrack s).reverseRest (UInt16.ofNat dur)).2 = .done) :
+    mmlReverseRest dur s = .ok () (setTrack s ((getTrack s).reverseRest (UInt16.ofNat dur)).1) := by
+  unfold mmlReverseRest
+  rw [bind_ok (track_run s)]
+  cases h : (getTrack s).reverseRest (UInt16.ofNat dur) with
+  | mk t r =>
+    have hr : r = .done := by rw [h] at hdone; exact hdone
+    subst hr
+    simp only [modifyTrack, run_bind, run_pure]
+
+theorem revRest_span (s : MmlState) (hs : Sane s) (d : Dur) (tail : List Nat)
+    (hsuf : suffix s = 82 :: (d.bytes ++ tail)) (hn : DurNums d) (ht : DurTail d tail)
+    (hdone : ((getTrack s).reverseRest (UInt16.ofNat (durVal (getTrack s) d).toNat)).2 = .done) :
+    mmlBasic s = .ok false
+      (adv (setTrack s ((getTrack s).reverseRest (UInt16.ofNat (durVal (getTrack s) d).toNat)).1) (1 + d.bytes.length + durSkip d tail)) := by
+  have hs1 : Sane (adv s 1) := sane_adv s hs 1 (by rw [hsuf]; simp)
+  have hsuf1 : suffix (adv s 1) = d.bytes ++ tail := by rw [suffix_adv, hsuf]; rfl
+  unfold mmlBasic
+  rw [bind_ok (getTokenC_cons s 82 _ hsuf (by omega))]
+  dispatch 82
+  rw [bind_ok (readDuration_render (adv s 1) hs1 d tail hsuf1 hn ht)]
+  rw [bind_ok (mmlReverseRest_ok _ _ (by simpa using hdone)), run_pure]
+  finish
+
+theorem grace_span (s : MmlState) (hs : Sane s) (l : Nat) (hl : l < 8) (a : Acc) (d : Dur) (tail : List Nat)
+    (hsuf : suffix s = 126 :: (97 + l) :: (a.bytes ++ (d.bytes ++ tail)))
+    (hn : DurNums d) (ht : DurTail d tail)
+    (hacc : a = .none → (d.bytes ++ tail).head? ≠ some 43 ∧ (d.bytes ++ tail).head? ≠ some 45 ∧ (d.bytes ++ tail).head? ≠ some 61)
+    (hdone : ((getTrack s).reverseRest (UInt16.ofNat (durVal (getTrack s) d).toNat)).2 = .done) :
+    mmlBasic s = .ok false
+      (adv (setTrack s (((getTrack s).reverseRest (UInt16.ofNat (durVal (getTrack s) d).toNat)).1.addNote (noteVal (getTrack s) l a)
+          (UInt16.ofNat (durVal (getTrack s) d).toNat)))
+        (2 + a.bytes.length + d.bytes.length + durSkip d tail)) := by
+  have hs1 : Sane (adv s 1) := sane_adv s hs 1 (by rw [hsuf]; simp)
+  have hsuf1 : suffix (adv s 1) = (97 + l) :: (a.bytes ++ (d.bytes ++ tail)) := by rw [suffix_adv, hsuf]; rfl
+  have hs2 : Sane (adv (adv s 1) 1) := sane_adv _ hs1 1 (by rw [hsuf1]; simp)
+  have hsuf2 : suffix (adv (adv s 1) 1) = a.bytes ++ (d.bytes ++ tail) := by rw [suffix_adv, hsuf1]; rfl
+  have hs3 : Sane (adv (adv (adv s 1) 1) a.bytes.length) := sane_adv _ hs2 _ (by rw [hsuf2]; simp)
+  have hsuf3 : suffix (adv (adv (adv s 1) 1) a.bytes.length) = d.bytes ++ tail := suffix_adv_append _ _ _ hsuf2
+  obtain ⟨dur, hdur⟩ : ∃ dur, dur = (durVal (getTrack s) d).toNat := ⟨_, rfl⟩
+  rw [← hdur] at hdone ⊢
+  have hgrace : mmlGrace (adv s 1) = .ok () (adv (setTrack s (((getTrack s).reverseRest (UInt16.ofNat dur)).1.addNote (noteVal (getTrack s) l a) (UInt16.ofNat dur)))
+      (2 + a.bytes.length + d.bytes.length + durSkip d tail)) := by
+    unfold mmlGrace
+    rw [bind_ok (getTokenC_cons (adv s 1) (97 + l) _ hsuf1 (by omega))]
+    have e : ((97 + l : Nat) : Int) = 97 + (l : Int) := by omega
+    rw [e]
+    have hrange : (decide (97 + (l : Int) < 97) || decide (97 + (l : Int) > 104)) = false := by
+      simp only [Bool.or_eq_false_iff, decide_eq_false_iff_not]; omega
+    simp only [hrange, Bool.false_eq_true, if_false]
+    rw [bind_ok (readNote_spec _ hs2 l hl a _ hsuf2 hacc)]
+    rw [bind_ok (readDuration_render _ hs3 d tail hsuf3 hn ht)]
+    simp only [getTrack_adv]
+    rw [← hdur]
+    rw [bind_ok (mmlReverseRest_ok _ dur (by simpa using hdone))]
+    have hub : Track.opUB (getTrack (setTrack (adv (adv (adv (adv s 1) 1) a.bytes.length) (d.bytes.length + durSkip d tail))
+        ((getTrack s).reverseRest (UInt16.ofNat dur)).1)) (.addNote (noteVal (getTrack s) l a) (UInt16.ofNat dur)) = false := by
+      rw [getTrack_setTrack]
+      have : noteVal ((getTrack s).reverseRest (UInt16.ofNat dur)).1 l a = noteVal (getTrack s) l a := by cases a <;> rfl
+      rw [← this]
+      exact opUB_noteVal _ l hl a _
+    rw [trackOp_ok _ (.addNote (noteVal (getTrack s) l a) (UInt16.ofNat dur))
+      ((((getTrack s).reverseRest (UInt16.ofNat dur)).1).addNote (noteVal (getTrack s) l a) (UInt16.ofNat dur)) "" (by
+        simp only [getTrack_adv, getTrack_setTrack] at hub ⊢
+        simp [Track.applyOp, hub])]
+    simp only [getTrack_adv, setTrack_adv, setTrack_setTrack, adv_adv]
+    have e2 : 1 + 1 + a.bytes.length + (d.bytes.length + durSkip d tail) = 2 + a.bytes.length + d.bytes.length + durSkip d tail := by omega
+    rw [e2]
+  unfold mmlBasic
+  rw [bind_ok (getTokenC_cons s 126 _ hsuf (by omega))]
+  dispatch 126
+  rw [bind_ok hgrace, run_pure]
+
 /-! ### one iteration for an event command -/
 
 theorem lstep_control (f : Nat) (s : MmlState) (hs : Sane s) (C : Nat) (r : List Nat) (hsuf : suffix s = C :: r)
@@ -478,11 +553,13 @@ def covSimple : Option EvClass → Option Num → Prop
   | some (.num _ _), some _ => True
   | _, _ => False
 
-/-- the commands the layout theorems cover: C05's subset, `D n`, and the event commands
+/-- the commands the layout theorems cover: C05's subset, `D n`, `R`, `~`, and the event commands
 `[ L` (no number), `] ( )` (optional number), `* @ v p K E M P G t T _ __ k %` (mandatory number) -/
 def LCovered : Cmd → Prop
   | .simple s n => covSimple (evClass s) n
   | .drum _ => True
+  | .revRest _ => True
+  | .grace l _ _ => l < 8
   | c => Covered c
 
 /-- the builder call of a covered command -/
@@ -495,12 +572,16 @@ def lcmdTrack (t : Track) : Cmd → Track
     | some (.num _ ty), some n => t.addEvent ty n.v 0 0
     | _, _ => t
   | .drum n => t.setDrumMode (u16 n.v)
+  | .revRest d => (t.reverseRest (UInt16.ofNat (durVal t d).toNat)).1
+  | .grace l a d => (t.reverseRest (UInt16.ofNat (durVal t d).toNat)).1.addNote (noteVal t l a) (UInt16.ofNat (durVal t d).toNat)
   | c => cmdTrack t c
 
 def LCmdNums (t : Track) : Cmd → Prop
   | .simple _ (some n) => NumRange n
   | .simple _ none => True
   | .drum n => NumRange n
+  | .revRest d => DurNums d ∧ (t.reverseRest (UInt16.ofNat (durVal t d).toNat)).2 = .done
+  | .grace _ _ d => DurNums d ∧ (t.reverseRest (UInt16.ofNat (durVal t d).toNat)).2 = .done
   | c => CmdNums t c
 
 /-- the look-ahead of an event command written without a number: an optional number must not be found -/
@@ -513,6 +594,9 @@ def LCmdTail : Cmd → List Nat → Prop
   | .simple _ (some n), tail => NumEnd (numBase n) tail
   | .simple s none, tail => optTail (evClass s) tail
   | .drum n, tail => NumEnd (numBase n) tail
+  | .revRest d, tail => DurTail d tail
+  | .grace _ a d, tail => DurTail d tail ∧
+      (a = .none → (d.bytes ++ tail).head? ≠ some 43 ∧ (d.bytes ++ tail).head? ≠ some 45 ∧ (d.bytes ++ tail).head? ≠ some 61)
   | c, tail => CmdTail c tail
 
 /-- bytes consumed beyond the spelling -/
@@ -523,21 +607,26 @@ def lcmdSkip : Cmd → List Nat → Nat
     | _ => 0
   | .simple _ (some _), _ => 0
   | .drum _, _ => 0
+  | .revRest d, tail => durSkip d tail
+  | .grace _ _ d, tail => durSkip d tail
   | c, tail => cmdSkip c tail
 
 /-- first bytes of the covered commands -/
 def LCmdStart (c : Nat) : Prop :=
   CmdStart c ∨ c = 91 ∨ c = 76 ∨ c = 93 ∨ c = 40 ∨ c = 41 ∨ c = 42 ∨ c = 64 ∨ c = 118 ∨ c = 112 ∨ c = 75 ∨ c = 69 ∨ c = 77 ∨ c = 80 ∨
-  c = 71 ∨ c = 116 ∨ c = 84 ∨ c = 68 ∨ c = 95 ∨ c = 107 ∨ c = 37
+  c = 71 ∨ c = 116 ∨ c = 84 ∨ c = 68 ∨ c = 95 ∨ c = 107 ∨ c = 37 ∨ c = 82 ∨ c = 126
 
 theorem lcovered_of_covered (c : Cmd) (h : Covered c) : LCovered c := by
   cases c <;> first | exact h | exact absurd h (by simp [Covered])
 
-theorem lcovered_cases (cmd : Cmd) (hc : LCovered cmd) : (∃ s n, cmd = .simple s n) ∨ (∃ n, cmd = .drum n) ∨ Covered cmd := by
+theorem lcovered_cases (cmd : Cmd) (hc : LCovered cmd) :
+    (∃ s n, cmd = .simple s n) ∨ (∃ n, cmd = .drum n) ∨ (∃ d, cmd = .revRest d) ∨ (∃ l a d, cmd = .grace l a d) ∨ Covered cmd := by
   cases cmd with
   | simple s n => exact Or.inl ⟨s, n, rfl⟩
   | drum n => exact Or.inr (Or.inl ⟨n, rfl⟩)
-  | _ => exact Or.inr (Or.inr hc)
+  | revRest d => exact Or.inr (Or.inr (Or.inl ⟨d, rfl⟩))
+  | grace l a d => exact Or.inr (Or.inr (Or.inr (Or.inl ⟨l, a, d, rfl⟩)))
+  | _ => exact Or.inr (Or.inr (Or.inr (Or.inr hc)))
 
 theorem lcmdTrack_covered (t : Track) (c : Cmd) (h : Covered c) : lcmdTrack t c = cmdTrack t c := by
   cases c <;> first | rfl | exact absurd h (by simp [Covered])
@@ -552,12 +641,14 @@ theorem lcmdSkip_covered (c : Cmd) (tail : List Nat) (h : Covered c) : lcmdSkip 
   cases c <;> first | rfl | exact absurd h (by simp [Covered])
 
 theorem lcovered_head (cmd : Cmd) (hc : LCovered cmd) : ∃ c r, cmd.bytes = c :: r ∧ LCmdStart c := by
-  rcases lcovered_cases cmd hc with ⟨s, n, rfl⟩ | ⟨n, rfl⟩ | h
+  rcases lcovered_cases cmd hc with ⟨s, n, rfl⟩ | ⟨n, rfl⟩ | ⟨d, rfl⟩ | ⟨l, a, d, rfl⟩ | h
   · cases s <;> cases n <;> simp only [LCovered, evClass, covSimple] at hc <;>
       first
       | exact absurd hc id
       | exact ⟨_, _, rfl, by simp [LCmdStart]⟩
   · exact ⟨68, _, rfl, by simp [LCmdStart]⟩
+  · exact ⟨82, _, rfl, by simp [LCmdStart]⟩
+  · exact ⟨126, _, rfl, by simp [LCmdStart]⟩
   · obtain ⟨c, r, h1, h2⟩ := covered_head cmd h
     exact ⟨c, r, h1, Or.inl h2⟩
 
@@ -565,6 +656,12 @@ theorem strip_lcmdTrack (t : Track) (cmd : Cmd) : (lcmdTrack t cmd).strip = lcmd
   cases cmd with
   | simple s n => cases s <;> cases n <;> rfl
   | drum n => rfl
+  | revRest d =>
+    simp only [lcmdTrack, durVal_strip]
+    exact (Track.strip_reverseRest t _).1
+  | grace l a d =>
+    simp only [lcmdTrack, durVal_strip, noteVal_strip]
+    rw [Track.strip_addNote, (Track.strip_reverseRest t _).1]
   | note l a d => exact strip_cmdTrack t (.note l a d)
   | rest d => exact strip_cmdTrack t (.rest d)
   | tie d => exact strip_cmdTrack t (.tie d)
@@ -583,6 +680,8 @@ theorem lcmdNums_strip (t : Track) (cmd : Cmd) : LCmdNums t.strip cmd ↔ LCmdNu
   cases cmd with
   | simple s n => cases n <;> exact Iff.rfl
   | drum n => exact Iff.rfl
+  | revRest d => simp only [LCmdNums, durVal_strip, (Track.strip_reverseRest t _).2]
+  | grace l a d => simp only [LCmdNums, durVal_strip, (Track.strip_reverseRest t _).2]
   | slur => exact cmdNums_strip t .slur
   | _ => exact Iff.rfl
 
@@ -593,6 +692,8 @@ theorem lcmdSkip_cases (cmd : Cmd) (tail : List Nat) : lcmdSkip cmd tail = 0 ∨
     | some n => exact Or.inl rfl
     | none => cases s <;> first | exact Or.inl rfl | exact Or.inr rfl
   | drum n => exact Or.inl rfl
+  | revRest d => exact cmdSkip_cases (.rest d) tail
+  | grace l a d => exact cmdSkip_cases (.rest d) tail
   | note l a d => exact cmdSkip_cases (.note l a d) tail
   | rest d => exact cmdSkip_cases (.rest d) tail
   | tie d => exact cmdSkip_cases (.tie d) tail
@@ -719,7 +820,7 @@ theorem lcmd_step (f : Nat) (s : MmlState) (hs : Sane s) (cmd : Cmd) (tail : Lis
     parseMmlTrackF (f + 1) s =
       parseMmlTrackF f (adv (setTrack s (lcmdTrack ((getTrack s).setReference (some { line := s.inp.line, column := s.inp.lb.column })) cmd))
         (cmd.bytes.length + lcmdSkip cmd tail)) := by
-  rcases lcovered_cases cmd hc with ⟨sm, n, rfl⟩ | ⟨n, rfl⟩ | hcov
+  rcases lcovered_cases cmd hc with ⟨sm, n, rfl⟩ | ⟨n, rfl⟩ | ⟨d, rfl⟩ | ⟨l, a, d, rfl⟩ | hcov
   · cases sm <;> rcases n with _ | n <;> simp only [LCovered, evClass, covSimple] at hc <;> try exact absurd hc id
     case loopStart.none =>
       have h := simple_noarg_step f s hs 91 ev_LOOP_START (by simp) tail (by simpa [Cmd.bytes, Simple.spellingBytes, MmlMeaning.optNumBytes] using hsuf)
@@ -797,6 +898,39 @@ theorem lcmd_step (f : Nat) (s : MmlState) (hs : Sane s) (cmd : Cmd) (tail : Lis
     simp only [Cmd.bytes, lcmdSkip, List.length_cons, Nat.add_zero]
     rw [Nat.add_comm]
     rfl
+  · -- reverse rest
+    obtain ⟨t1, ht1⟩ : ∃ t1, t1 = (getTrack s).setReference (some { line := s.inp.line, column := s.inp.lb.column }) := ⟨_, rfl⟩
+    have hn1 : LCmdNums t1 (.revRest d) := by
+      rw [← lcmdNums_strip, ht1, Track.strip_setReference]; exact hn
+    have hs0 : Sane (setTrack s t1) := sane_setTrack _ _ hs
+    have hsuf0 : suffix (setTrack s t1) = 82 :: (d.bytes ++ tail) := by rw [suffix_setTrack]; simpa [Cmd.bytes] using hsuf
+    have hspan := revRest_span (setTrack s t1) hs0 d tail hsuf0 hn1.1 ht (by rw [getTrack_setTrack]; exact hn1.2)
+    rw [getTrack_setTrack, setTrack_setTrack] at hspan
+    have hsuf' : suffix s = List.replicate 0 32 ++ 82 :: (d.bytes ++ tail) := by simpa [Cmd.bytes] using hsuf
+    have := step_basic f s hs 0 82 _ hsuf' (by omega) (by unfold NotLoopChar; omega) _ (by
+      rw [adv_zero, Nat.add_zero, ← ht1]; exact hspan)
+    rw [this, ht1]
+    simp only [Cmd.bytes, lcmdSkip, List.length_cons]
+    have e : 1 + d.bytes.length + durSkip d tail = d.bytes.length + 1 + durSkip d tail := by omega
+    rw [e]; rfl
+  · -- grace note
+    have hl : l < 8 := hc
+    obtain ⟨t1, ht1⟩ : ∃ t1, t1 = (getTrack s).setReference (some { line := s.inp.line, column := s.inp.lb.column }) := ⟨_, rfl⟩
+    have hn1 : LCmdNums t1 (.grace l a d) := by
+      rw [← lcmdNums_strip, ht1, Track.strip_setReference]; exact hn
+    have hlb : MmlMeaning.letterByte l = 97 + l := by unfold MmlMeaning.letterByte; rw [Nat.mod_eq_of_lt hl]
+    have hs0 : Sane (setTrack s t1) := sane_setTrack _ _ hs
+    have hsuf0 : suffix (setTrack s t1) = 126 :: (97 + l) :: (a.bytes ++ (d.bytes ++ tail)) := by
+      rw [suffix_setTrack]; simpa [Cmd.bytes, hlb] using hsuf
+    have hspan := grace_span (setTrack s t1) hs0 l hl a d tail hsuf0 hn1.1 ht.1 ht.2 (by rw [getTrack_setTrack]; exact hn1.2)
+    rw [getTrack_setTrack, setTrack_setTrack] at hspan
+    have hsuf' : suffix s = List.replicate 0 32 ++ 126 :: ((97 + l) :: (a.bytes ++ (d.bytes ++ tail))) := by simpa [Cmd.bytes, hlb] using hsuf
+    have := step_basic f s hs 0 126 _ hsuf' (by omega) (by unfold NotLoopChar; omega) _ (by
+      rw [adv_zero, Nat.add_zero, ← ht1]; exact hspan)
+    rw [this, ht1]
+    simp only [Cmd.bytes, lcmdSkip, List.length_cons, List.length_append]
+    have e : 2 + a.bytes.length + d.bytes.length + durSkip d tail = a.bytes.length + 1 + 1 + d.bytes.length + durSkip d tail := by omega
+    rw [e]; rfl
   · rw [lcmdTrack_covered _ _ hcov, lcmdSkip_covered _ _ hcov]
     rw [lcmdNums_covered _ _ hcov] at hn
     rw [lcmdTail_covered _ _ hcov] at ht
